@@ -721,6 +721,7 @@ func pkgVarFacts() {
 
 func main() {
 	out := flag.String("out", "", "output Lean file")
+	outConc := flag.String("out-conc", "", "second output Lean file: the C14 facts (PV.FactsConc); not written when empty")
 	flag.StringVar(&repo, "repo", "/repo", "repository root")
 	flag.Parse()
 	memoizeFacts()
@@ -731,6 +732,21 @@ func main() {
 	terminalFacts()
 	dataFacts()
 	pkgVarFacts()
+	if *outConc != "" {
+		var vars, accesses string
+		for _, f := range facts {
+			switch f.name {
+			case "pkgVars":
+				vars = f.val
+			case "pkgVarAccesses":
+				accesses = f.val
+			}
+		}
+		if err := os.WriteFile(*outConc, []byte(concFacts(vars, accesses)), 0o644); err != nil {
+			fmt.Fprintln(os.Stderr, err)
+			os.Exit(1)
+		}
+	}
 
 	var b strings.Builder
 	b.WriteString("/- GENERATED by harness/cmd/factgen from the repository's current source on every run. Do not edit. -/\n")
